@@ -81,6 +81,9 @@ def case_c12(bindir, seed, index, tier, extra):
 
 
 def case_c14(bindir, seed, index, tier, extra):
+    if index % 4 == 3:
+        res = run_harness(bindir, "cache", "TestVerifCache", "c14k", seed, 0, 3, tier)
+        return collect(res, "schedsim+crashfs", "cache", "TestVerifCache")
     res = run_harness(bindir, "cache", "TestVerifCache", "c14", seed, 0, 25, tier)
     return collect(res, "schedsim+crashfs", "cache", "TestVerifCache")
 
